@@ -7,6 +7,7 @@
 import FileD.Prelude.Tok
 import FileD.Drv.PoolTrace
 import FileD.Drv.StreamTrace
+import FileD.Prelude.TS
 import FileD.Spec.C04
 import FileD.Spec.C05
 import FileD.Drv.C01
@@ -24,17 +25,34 @@ def handleStream (args impl : List String) : Option (String × String) :=
   match args with
   | np :: ns :: _ => do
     let np ← Tok.nat? np; let ns ← Tok.nat? ns
-    let settled := impl.getLast? ≠ some "unsettled"
-    let toks := (if settled then impl else impl.dropLast).filter (· ≠ "-")
+    let settled := !impl.contains "unsettled"
+    let toks := impl.filter (fun t => t ≠ "-" ∧ t ≠ "unsettled")
+    -- trailing observation: end <joinWaiters> <len charged>
+    let (toks, obs) := match toks.reverse with
+      | c :: w :: "end" :: rest =>
+        (match Tok.nat? w, Tok.nat? c with
+         | some w, some c => (rest.reverse, some (w, c))
+         | _, _ => (toks, none))
+      | _ => (toks, none)
     match Drv.StreamTrace.parseOps (toks.length + 1) toks with
     | none => pure ("bad-impl", "bad-impl")
     | some ops =>
-      pure (Drv.StreamTrace.replay (Stream.init ns np) ops, SpecC04.streamVerdict ns ops settled)
+      let m := Drv.StreamTrace.replay (Stream.init ns np) ops
+      let m := match obs, TS.run Stream.step? (Stream.init ns np) ops with
+        | some _, some st => (if m = "-" then "" else m ++ " ") ++ s!"end {st.parkedQ.length} {st.charged.length}"
+        | _, _ => m
+      pure (m, SpecC04.streamVerdict ns ops settled obs)
   | _ => none
 
 def handle (cmd : String) (args impl : List String) : Option (String × String) :=
   if cmd = "c04.pool" then handlePool args impl
   else if cmd = "c04.stream" then handleStream args impl
+  else if cmd = "c04.burst" then
+    -- liveness oracle of the whole-pipeline burst runs: the stream charged together with a never-drying
+    -- one is attended by another processor while the first still flows (Props/C04
+    -- no_sleeper_with_work_holds), nothing is lost, the pool is idle at the end
+    let want := "bearly 1 lost 0 end 0 0"
+    some (want, if Tok.unwords impl = want then "ok" else "fail")
   -- whole-pipeline liveness: the C01/C02 pipeline trace (streams, processors, real join/split, batcher);
   -- P fails iff the run never went idle or an accepted event was neither committed nor dropped
   else if cmd = "c04.run" then FileD.DrvC01.handle cmd args impl
